@@ -405,8 +405,23 @@ def check_callers(rep, repo, inv):
             calls = [n for n in ast.walk(host.node) if isinstance(n, ast.Call) and isinstance(n.func, ast.Name) and n.func.id == inv.name]
             g = host
         c = calls[0]
-        a0 = ast.unparse(c.args[0]) if c.args else ''
-        a1 = ast.unparse(c.args[1]) if len(c.args) > 1 else ''
+        args_ = list(c.args)
+        gi = repo.method(cls, 'generate_instances')
+        if g is not gi and args_:
+            # the inversion is called in a helper method (possibly of a shared base class) with the helper's own parameters: follow
+            # them to the arguments generate_instances passes
+            ps = [p_ for p_ in g.params if p_ != 'self']
+            outer = [n for n in ast.walk(gi.node) if isinstance(n, ast.Call) and isinstance(n.func, ast.Attribute) and n.func.attr == g.name]
+            if len(outer) == 1 and not outer[0].keywords and not any(isinstance(a_, ast.Starred) for a_ in outer[0].args):
+                m_ = dict(zip(ps, outer[0].args))
+                args_ = [m_.get(a_.id, a_) if isinstance(a_, ast.Name) else a_ for a_ in args_]
+                if all(not (isinstance(a_, ast.Name) and a_.id in ps) for a_ in args_):
+                    g = gi
+            elif any(isinstance(a_, ast.Name) and a_.id in ps for a_ in args_[:2]):
+                rep.inconclusive('C12.R4', g.where, '%s: the arguments of the inversion can be traced to generate_instances' % cls, got='%d call sites of %s' % (len(outer), g.name))
+                continue
+        a0 = ast.unparse(args_[0]) if args_ else ''
+        a1 = ast.unparse(args_[1]) if len(args_) > 1 else ''
         # resolve simple locals / parameters to their origin
         def origin(expr):
             if isinstance(expr, ast.Name):
@@ -420,7 +435,7 @@ def check_callers(rep, repo, inv):
                             if isinstance(v, ast.Call):
                                 return ast.unparse(v.func) + '[%d]' % [getattr(e, 'id', None) for e in t.elts].index(expr.id)
             return ast.unparse(expr)
-        o0 = origin(c.args[0]) if c.args else ''
+        o0 = origin(args_[0]) if args_ else ''
         ok_n = a1.endswith('.' + want_n) or a1 == want_n
         rep.check(ok_n, 'C12.R4', g.where, '%s: one second-side list per %s' % (cls, 'lecturer (n3)' if want_n == 'n3' else 'second-side agent (n2)'), got=a1, want='args.' + want_n,
                   construct='%s inversion count %s' % (cls, a1), loc='%s:%d' % (g.relpath, c.lineno))
